@@ -709,8 +709,10 @@ impl World {
                 let resp = Response {
                     request_id: id,
                     message: if is_err {
+                        // the kind of an application error is the application's business: the
+                        // error reply of an even request id says TimedOut, of an odd one Other
                         Err(ServerError::new(
-                            std::io::ErrorKind::Other,
+                            if id % 2 == 0 { std::io::ErrorKind::TimedOut } else { std::io::ErrorKind::Other },
                             tok.to_string(),
                         ))
                     } else {
